@@ -50,17 +50,17 @@ Proof. exact run_logged. Qed.
 Print Assumptions C16_driven.
 
 (** the executor cache never disagrees with the stored service records *)
-Theorem C16_cache_consistent : forall f h, d_cache_failed_events f = false ->
-  cache_ok (run_ops f st0 h) /\ committed (run_ops f st0 h).
-Proof. exact (fun f h Hf => run_ops_keeps f h st0 Hf (proj1 st0_ok) (proj2 st0_ok)). Qed.
+Theorem C16_cache_consistent : forall f h, d_cache_failed_events f = false -> key_inj (d_cache_key f) ->
+  cache_ok f (run_ops f st0 h) /\ committed (run_ops f st0 h).
+Proof. exact (fun f h Hf Hk => run_ops_keeps f h st0 Hf Hk (proj1 (st0_ok f)) (proj2 (st0_ok f))). Qed.
 Print Assumptions C16_cache_consistent.
 
 (** gating: after any history, a request is recorded as BEGIN only if - by the STORED records - the source
     service is available and the destination exists, is available and does not refuse the source; it is
     recorded as BEGIN_FAILURE only if the source is available and the destination is not usable; it is
     rejected for the source only if the source is not available *)
-Theorem C16_gate_after_history : forall f h src dst, d_cache_failed_events f = false ->
-  let s := run_ops f st0 h in gate_sound (svcs s) src dst (ibtp_outcome s src dst) = true.
+Theorem C16_gate_after_history : forall f h src dst, d_cache_failed_events f = false -> key_inj (d_cache_key f) ->
+  let s := run_ops f st0 h in gate_sound (svcs s) src dst (ibtp_outcome f s src dst) = true.
 Proof. exact gate_theorem. Qed.
 Print Assumptions C16_gate_after_history.
 
@@ -70,7 +70,7 @@ Print Assumptions C16_gate_after_history.
     request that passes the proof stage - which looks at the state the block started from - gets exactly the
     gate's answer on those records *)
 Theorem C16_gate : forall f bs pre src dst,
-  d_cache_failed_events f = false -> d_cache_deferred f = false ->
+  d_cache_failed_events f = false -> key_inj (d_cache_key f) -> d_cache_deferred f = false ->
   let s0 := run_ops f st0 (List.concat bs) in
   let s := run_ops f s0 pre in
   exists oc, r_out (step_at f s0 s (OIbtp src dst)) = outcome_code oc /\ gate_sound (svcs s) src dst oc = true /\
@@ -93,10 +93,10 @@ Theorem C16_logout_forever : forall f h s, forb_rel s (run_ops f s h).
 Proof. exact (fun f h s => run_ops_forbidden f h s). Qed.
 Print Assumptions C16_logout_forever.
 
-Theorem C16_logout_unusable : forall f h src dst r, d_cache_failed_events f = false ->
+Theorem C16_logout_unusable : forall f h src dst r, d_cache_failed_events f = false -> key_inj (d_cache_key f) ->
   let s := run_ops f st0 h in
   sget src (svcs s) = Some r -> sv_status r = St_Forbidden ->
-  ibtp_outcome s src dst = ORejSrc \/ ibtp_outcome s src dst = OProof.
+  ibtp_outcome f s src dst = ORejSrc \/ ibtp_outcome f s src dst = OProof.
 Proof. exact forbidden_source_refused. Qed.
 Print Assumptions C16_logout_unusable.
 
@@ -148,11 +148,41 @@ Print Assumptions C16_deferred_cache_refuted.
 Theorem C16_deferred_cache_fixed : P_b_blocks b_deferred (model_trace_blocks cfg_fixed b_deferred) = true.
 Proof. exact deferred_fixed. Qed.
 
+(** the manager is told "approve", "reject" or - when the rejected / withdrawn proposal had locked a lower-priority
+    one - the event name of the RESTORED proposal; the follow-up of a not-approved service logout (re-pause the
+    service of an unusable appchain) must run for all of them but "approve" *)
+Theorem C16_restored_event_refuted : P_b h_restored (model_trace cfg_reject_only h_restored) = false.
+Proof. exact restored_refuted. Qed.
+Print Assumptions C16_restored_event_refuted.
+Theorem C16_restored_event_fixed : P_b h_restored (model_trace (cfg_of_bits false true false) h_restored) = true.
+Proof. exact restored_fixed. Qed.
+
+(** the premise [key_inj] - distinct ids have distinct cache keys - is needed: a cache keyed by the case-folded id
+    (ids that differ only in the case of their letters share one entry) lets a request to an unregistered id
+    through, and makes a frozen service usable again when its twin posts an event.  The code as it is keys the
+    cache by the exact id: the identity ([cfg_of_bits4], checked on every run: the keys of the executor cache are
+    read back and compared, entry by entry, with the model's). *)
+Theorem C16_key_identity_injective : forall a b c d, key_inj (d_cache_key (cfg_of_bits4 a b c d)).
+Proof. intros a b c d i j H. exact H. Qed.
+Print Assumptions C16_key_identity_injective.
+Theorem C16_folded_key_not_injective : ~ key_inj fold_key.
+Proof. exact fold_key_not_inj. Qed.
+Theorem C16_folded_key_refuted : P_b h_folded (model_trace cfg_code_folded h_folded) = false.
+Proof. exact folded_refuted. Qed.
+Print Assumptions C16_folded_key_refuted.
+Theorem C16_folded_key_twin_refuted : P_b h_folded2 (model_trace cfg_code_folded h_folded2) = false.
+Proof. exact folded2_refuted. Qed.
+Print Assumptions C16_folded_key_twin_refuted.
+Theorem C16_folded_key_fixed :
+  P_b h_folded (model_trace (cfg_of_bits false true false) h_folded) = true /\
+  P_b h_folded2 (model_trace (cfg_of_bits false true false) h_folded2) = true.
+Proof. exact (conj folded_fixed folded2_fixed). Qed.
+
 (** not reloading the cache is harmless for gating on its own, yet makes a restarted node differ from a running one *)
 Theorem C16_restart_divergence_refuted :
   let f := cfg_of_bits true true false in
   let h := firstn 17 h_stale_cache in
-  ibtp_outcome (run_ops f st0 h) 10 20 <> ibtp_outcome (run_ops f st0 (h ++ [ORestart])) 10 20.
+  ibtp_outcome f (run_ops f st0 h) 10 20 <> ibtp_outcome f (run_ops f st0 (h ++ [ORestart])) 10 20.
 Proof. exact restart_divergence. Qed.
 Print Assumptions C16_restart_divergence_refuted.
 
